@@ -1,8 +1,9 @@
 /-
 C20 property theorems. Only statements of the property + non-vacuity examples live here;
-helper lemmas are in Lemmas*.lean.
+helper lemmas are in Lemmas*.lean. `H` is the keyed hash (SipHash-2-4 under the filter key) as an
+arbitrary function; `dsha` is double-SHA256 as an arbitrary function.
 -/
-import BV.C20.LemmasGolomb
+import BV.C20.LemmasSer
 import BV.Generated.C20
 namespace BV.C20
 open Spec
@@ -14,6 +15,166 @@ open Spec
 theorem fastReduction_eq_mulhi (v nm : Nat) (hv : v < 2 ^ 64) (hn : nm < 2 ^ 64) :
     fastReduction v (nm / 2 ^ 32) (nm % 2 ^ 32) = mulhi v nm :=
   Lemmas.reduce_eq_mulhi v nm hv hn
+
+/-! ### Golomb-Rice coder -/
+
+/-- Decoding `ds.length` values from the Golomb-Rice code of any list of 64-bit values `ds`, for ANY
+    parameter `P` (in particular 0..32), returns `ds` and leaves whatever followed (padding) untouched. -/
+theorem golomb_roundtrip (P : Nat) (ds : List Nat) (hb : ∀ x ∈ ds, x < 2 ^ 64) (pad : List Bool) :
+    Lemmas.readN P ds.length (golombEncodeAll P ds ++ pad) = some (ds, pad) :=
+  Lemmas.readN_golombEncodeAll P ds hb pad
+
+/-- The builder's write loop over an ascending list is BIP158's `golomb_encode` of the differences. -/
+theorem encode_eq_spec (P : Nat) (vs : List Nat) (hs : vs.Pairwise (fun a b => a ≤ b))
+    (hb : ∀ x ∈ vs, x < 2 ^ 64) :
+    encodeValues P 0 vs = golombEncodeAll P (deltas 0 vs) :=
+  Lemmas.encodeValues_eq P 0 vs (Lemmas.asc_of_pairwise hs 0 (fun _ _ => Nat.zero_le _)) hb
+
+/-- A byte stream written bit by bit reads back as the same bits followed by fewer than 8 zero bits. -/
+theorem bitstream_roundtrip (bs : List Bool) :
+    ∃ k, k < 8 ∧ unpackBits (packBits bs) = bs ++ List.replicate k false :=
+  Lemmas.unpack_pack bs
+
+example : Lemmas.readN 19 2 (golombEncodeAll 19 [5, 2 ^ 40] ++ [false, false, false]) =
+    some ([5, 2 ^ 40], [false, false, false]) :=
+  golomb_roundtrip 19 [5, 2 ^ 40] (by decide) _
+
+/-! ### GCS build / match -/
+
+/-- Building succeeds for every P ≤ 32 and every multiset of fewer than 2^32 items. -/
+theorem build_succeeds (H : Bytes → Nat) (P M : Nat) (data : List Bytes) (hP : P ≤ 32)
+    (hn : data.length < 2 ^ 32) : ∃ f, build H P M data = .ok f :=
+  Lemmas.build_exists H P M data hP hn
+
+/-- No false negatives: a filter built from `data` (any multiset: empty, duplicates, any size; any
+    `P ≤ 32`, any `M`, any key/hash) matches every element of `data`. -/
+theorem gcs_no_false_negative (H : Bytes → Nat) (P M : Nat) (data : List Bytes) (f : Filter)
+    (hb : build H P M data = .ok f) (d : Bytes) (hd : d ∈ data) : f.matches H d = true := by
+  rw [Lemmas.matches_built H P M data f hb, decide_eq_true_iff]
+  exact List.mem_map.mpr ⟨d, hd, rfl⟩
+
+/-- `Match` is exactly BIP158 membership: the query's range-reduced hash is one of the set's. -/
+theorem match_eq_spec (H : Bytes → Nat) (hH : ∀ d, H d < 2 ^ 64) (P M : Nat) (data : List Bytes)
+    (f : Filter) (hb : build H P M data = .ok f) (q : Bytes) :
+    f.matches H q = true ↔ member H f.modulusNP data q := by
+  rw [Lemmas.matches_built H P M data f hb, decide_eq_true_iff]
+  have hm : f.modulusNP < 2 ^ 64 := by
+    rw [(Lemmas.build_spec H P M data f hb).2.2.2.2.1]; exact Nat.mod_lt _ (by decide)
+  unfold member hashedValues
+  rw [Lemmas.reduce_eq_mulhi _ _ (hH q) hm]
+  have : (fun d => reduce (H d) f.modulusNP) = (fun d => mulhi (H d) f.modulusNP) := by
+    funext d; exact Lemmas.reduce_eq_mulhi _ _ (hH d) hm
+  rw [this]
+
+/-- ZipMatchAny = element-wise Match, for every query list. -/
+theorem zip_eq_elementwise (H : Bytes → Nat) (P M : Nat) (data : List Bytes) (f : Filter)
+    (hb : build H P M data = .ok f) (qs : List Bytes) :
+    f.zipMatchAny H qs = qs.any (f.matches H) := Lemmas.zip_built H P M data f hb qs
+
+/-- HashMatchAny (64-bit keys, after the fix of F-C20-a) = element-wise Match, for every query list
+    and every `N·M` (no `N·M ≤ 2^32` restriction). -/
+theorem hash_eq_elementwise (H : Bytes → Nat) (P M : Nat) (data : List Bytes) (f : Filter)
+    (hb : build H P M data = .ok f) (qs : List Bytes) :
+    f.hashMatchAny H qs = qs.any (f.matches H) := Lemmas.hash_built H P M data f hb qs
+
+/-- MatchAny (whichever strategy its heuristic picks) = element-wise Match. -/
+theorem matchAny_eq_elementwise (H : Bytes → Nat) (P M : Nat) (data : List Bytes) (f : Filter)
+    (hb : build H P M data = .ok f) (qs : List Bytes) :
+    f.matchAny H qs = qs.any (f.matches H) := by
+  unfold Filter.matchAny
+  split
+  · exact hash_eq_elementwise H P M data f hb qs
+  · exact zip_eq_elementwise H P M data f hb qs
+
+/-- What F-C20-a was: with the index keyed by `uint32(value)` (the code before the fix) batch and
+    element-wise matching disagree on a filter with `N·M = 2^33`. -/
+theorem hashMatchAny32_not_elementwise :
+    build Lemmas.w_H 32 (2 ^ 33) [[0]] = .ok Lemmas.w_filter ∧
+    Lemmas.w_filter.hashMatchAny32 Lemmas.w_H [[1]] = true ∧
+    Lemmas.w_filter.matches Lemmas.w_H [1] = false ∧
+    Lemmas.w_filter.hashMatchAny Lemmas.w_H [[1]] = false :=
+  ⟨Lemmas.w_filter_built, by decide, by decide, by decide⟩
+
+/-! ### serialisation -/
+
+/-- The N-prefixed serialisation is `CompactSize(N) ‖ filter data`, the data being the packed
+    Golomb-Rice code of the sorted reduced hashes (BIP158 byte format). -/
+theorem nbytes_format (H : Bytes → Nat) (P M : Nat) (data : List Bytes) (f : Filter)
+    (hb : build H P M data = .ok f) :
+    f.nBytes = compactSize data.length ++
+      packBits (encodeValues P 0 (Lemmas.vals H (data.length * M % 2 ^ 64) data)) := by
+  obtain ⟨_, _, hn, _, _, hd⟩ := Lemmas.build_spec H P M data f hb
+  unfold Filter.nBytes
+  rw [hn, hd, Lemmas.writeVarInt_eq_compactSize]
+
+/-- `FromNBytes(P, M, NBytes(f)) = f` for every built filter. -/
+theorem nbytes_roundtrip (H : Bytes → Nat) (P M : Nat) (data : List Bytes) (f : Filter)
+    (hb : build H P M data = .ok f) : fromNBytes P M f.nBytes = .ok f :=
+  Lemmas.nbytes_roundtrip H P M data f hb
+
+/-- hence the deserialised filter matches every element it was built from -/
+theorem roundtrip_no_false_negative (H : Bytes → Nat) (P M : Nat) (data : List Bytes) (f : Filter)
+    (hb : build H P M data = .ok f) (d : Bytes) (hd : d ∈ data) :
+    ∃ g, fromNBytes P M f.nBytes = .ok g ∧ g.matches H d = true :=
+  ⟨f, nbytes_roundtrip H P M data f hb, gcs_no_false_negative H P M data f hb d hd⟩
+
+example : ∃ f, build (fun _ => 7) 19 784931 [[1], [2], [1]] = .ok f :=
+  build_succeeds _ 19 784931 _ (by decide) (by decide)
+
+/-! ### BIP158 basic filter, BIP157 header chain -/
+
+/-- The entries `BuildBasicFilter` feeds the builder are exactly BIP158's: every output script that is
+    non-empty and does not start with OP_RETURN, every spent previous-output script that is non-empty. -/
+theorem basic_filter_entries (outs : List (List Bytes)) (prevs : List Bytes) :
+    basicEntries outs prevs = basicElements outs prevs := Lemmas.basicEntries_eq_spec outs prevs
+
+/-- The basic filter of a block (key = first 16 bytes of the block hash, P = 19, M = 784931) matches
+    every BIP158 element of the block. -/
+theorem basic_filter_contents (Hk : Bytes → Bytes → Nat) (blockHash : Bytes)
+    (outs : List (List Bytes)) (prevs : List Bytes) (f : Filter)
+    (hb : buildBasicFilter Hk blockHash outs prevs = .ok f) (s : Bytes)
+    (hs : s ∈ basicElements outs prevs) :
+    f.matches (Hk (blockHash.take 16)) s = true := by
+  unfold buildBasicFilter at hb
+  apply gcs_no_false_negative _ _ _ _ f hb s
+  rw [Lemmas.mem_dedup, basic_filter_entries]
+  exact hs
+
+/-- and is built with the BIP158 parameters over the de-duplicated element set -/
+theorem basic_filter_params (Hk : Bytes → Bytes → Nat) (blockHash : Bytes)
+    (outs : List (List Bytes)) (prevs : List Bytes) (f : Filter)
+    (hb : buildBasicFilter Hk blockHash outs prevs = .ok f) :
+    f.p = 19 ∧ f.n = (dedup (basicElements outs prevs)).length ∧ (dedup (basicElements outs prevs)).Nodup ∧
+    f.modulusNP = f.n * 784931 % 2 ^ 64 := by
+  unfold buildBasicFilter at hb
+  obtain ⟨_, _, hn, hp, hm, _⟩ := Lemmas.build_spec _ _ _ _ f hb
+  rw [basic_filter_entries] at hn hm
+  exact ⟨hp, hn, Lemmas.dedup_nodup _, by rw [hm, hn]; rfl⟩
+
+/-- BIP157: filter hash = dSHA256(NBytes), header = dSHA256(filterHash ‖ prevHeader). -/
+theorem filter_header_chain (dsha : Bytes → Bytes) (f : Filter) (prev : Bytes) :
+    filterHash dsha f = dsha (compactSize f.n ++ f.data) ∧
+    makeHeaderForFilter dsha f prev = filterHeader dsha (filterHash dsha f) prev := by
+  refine ⟨?_, rfl⟩
+  unfold filterHash Filter.nBytes
+  rw [Lemmas.writeVarInt_eq_compactSize]
+
+/-- a sequence of filters chains as BIP157's `headerChain` -/
+theorem filter_header_chain_seq (dsha : Bytes → Bytes) (fs : List Filter) (prev : Bytes) :
+    headerChain dsha prev (fs.map (filterHash dsha)) =
+      (fs.foldl (fun (acc : List Bytes × Bytes) f =>
+        let h := makeHeaderForFilter dsha f acc.2; (acc.1 ++ [h], h)) ([], prev)).1 := by
+  suffices h : ∀ (pre : List Bytes), pre ++ headerChain dsha prev (fs.map (filterHash dsha)) =
+      (fs.foldl (fun (acc : List Bytes × Bytes) f =>
+        let h := makeHeaderForFilter dsha f acc.2; (acc.1 ++ [h], h)) (pre, prev)).1 by
+    simpa using h []
+  induction fs generalizing prev with
+  | nil => intro pre; simp [headerChain]
+  | cons f fs ih =>
+    intro pre
+    simp only [List.map_cons, headerChain, List.foldl_cons]
+    rw [← ih]
+    simp [makeHeaderForFilter, filterHeader]
 
 /-! ### pinning of regenerated facts (T2) -/
 
